@@ -334,6 +334,110 @@ static std::string run_config(const Config & c, int depth, long nlong)
       if (!same_ev(e, canon[0])) V("probe-prefilled", hist, "probe shot into a pre-filled event of capacity " + std::to_string(CAPS[k]) + " differs from the canonical history's");
     }
   };
+  // predecessor-first histories: state that is set once per process (function-local statics, lazily built tables)
+  // is frozen by whichever configuration runs first, and in every history below that is this configuration itself
+  // (this process is still pristine here: the canonical events were produced in children).
+  // In a forked child a sibling configuration (same category and mode, other nuclide) is initialised and shot FIRST,
+  // then this configuration is built and probed against the canonical events.
+  long sib_runs = 0;
+  {
+    static const char * DBDSIB[] = {"Nd150", "Zr96", "Xe136", "Mo100", "Cd106", "Ca48", "Se82", "Ge76", "Te130", "Kr78", "Xe124", "Ru96", "Cd116", "Sn124"};
+    static const char * BKGSIB[] = {"Bi214", "Pb212", "Tl208", "K42", "Sr90", "Co60", "Bi207", "Eu152", "Cs137", "Na22"};
+    std::vector<Config> sibs;
+    if (c.dbd()) {
+      for (const char * n : DBDSIB)
+        if (c.name != n) {
+          Config sc = c;
+          sc.name = n;
+          sc.level = 0;
+          sc.pre.clear();
+          sibs.push_back(sc);
+        }
+    } else {
+      for (const char * n : BKGSIB)
+        if (c.name.compare(0, strlen(n), n) != 0) {
+          Config sc;
+          sc.cat = "bkg";
+          sc.name = n;
+          sibs.push_back(sc);
+        }
+    }
+    int used = 0;
+    for (size_t si = 0; si < sibs.size() && used < 2; si++) {
+      int pfd[2];
+      if (pipe(pfd)) break;
+      pid_t p = fork();
+      if (p == 0) {
+        close(pfd[0]);
+        alarm(600);
+        std::string rep;
+        std::unique_ptr<decay0_generator> S(new decay0_generator);
+        bool ok = true;
+        try {
+          configure(*S, sibs[si]);
+          init(*S);
+          bxdecay0::event ev;
+          shoot_into(*S, ev, 7001);
+          shoot_into(*S, ev, 7002);
+        } catch (std::exception &) {
+          ok = false;
+        }
+        if (!ok) {
+          rep = "SKIP";
+        } else {
+          if (used == 1) S.reset(); // second sibling: destroyed before this configuration is built; first: kept alive
+          viol.clear();
+          probes = 0;
+          std::string hs = "(fresh process) other configuration " + sibs[si].key() + " initialised and shot twice first" + (used == 1 ? ", destroyed" : ", kept alive") + " ; build ; initialise";
+          try {
+            Ctx X;
+            X.cfg = c;
+            X.other = other;
+            X.build();
+            std::string d = pars_diff(X.A->get_bb_params(), canon_pars);
+            if (!d.empty()) V("bbpars-after-other", hs, "working parameters differ from those of a pristine process: " + d);
+            probe_all(X, hs);
+          } catch (std::exception & e) {
+            V("exception", hs, std::string("unexpected exception: ") + e.what());
+          }
+          rep = "OK " + std::to_string(probes) + "\n";
+          for (auto & v : viol) rep += v.first + "\t" + v.second + "\n";
+        }
+        size_t off = 0;
+        while (off < rep.size()) {
+          ssize_t w = write(pfd[1], rep.data() + off, rep.size() - off);
+          if (w <= 0) break;
+          off += w;
+        }
+        _exit(0);
+      }
+      close(pfd[1]);
+      std::string buf;
+      char b[65536];
+      ssize_t r;
+      while ((r = read(pfd[0], b, sizeof b)) > 0) buf.append(b, r);
+      close(pfd[0]);
+      int st;
+      waitpid(p, &st, 0);
+      if (!WIFEXITED(st) || WEXITSTATUS(st) != 0) {
+        V("crash-after-other", sibs[si].key(), "the process died when this configuration ran after " + sibs[si].key());
+        used++;
+        continue;
+      }
+      if (buf.compare(0, 4, "SKIP") == 0) continue; // the sibling does not exist for this mode
+      used++;
+      sib_runs++;
+      std::istringstream is(buf);
+      std::string line;
+      std::getline(is, line);
+      probes += atol(line.c_str() + 3);
+      histories++;
+      while (std::getline(is, line)) {
+        size_t t = line.find('\t');
+        if (t != std::string::npos && viol.size() < 30) viol.push_back({line.substr(0, t), line.substr(t + 1)});
+      }
+    }
+  }
   // all histories up to depth
   std::vector<int> h;
   std::function<void()> rec = [&]() {
@@ -388,7 +492,7 @@ static std::string run_config(const Config & c, int depth, long nlong)
     }
   }
   std::ostringstream js;
-  js << "{\"key\":" << vx::jstr(c.key()) << ",\"histories\":" << histories << ",\"probes\":" << probes << ",\"long_shots\":" << nl << ",\"canon_particles\":" << canon_np_max
+  js << "{\"key\":" << vx::jstr(c.key()) << ",\"histories\":" << histories << ",\"probes\":" << probes << ",\"long_shots\":" << nl << ",\"predecessor_first\":" << sib_runs << ",\"canon_particles\":" << canon_np_max
      << ",\"sample\":" << vx::jstr(sample) << ",\"violations\":[";
   for (size_t k = 0; k < viol.size(); k++) js << (k ? "," : "") << "{\"key\":" << vx::jstr(viol[k].first) << ",\"text\":" << vx::jstr(viol[k].second) << "}";
   js << "]}";
